@@ -271,7 +271,8 @@ fn judge(out: &mut Out, id: &str, prog: &V, env: &V, source: Option<&str>, symbo
                         // listed finding: HierarchialRunner only keeps the failure row when the failing step belongs to the
                         // outermost frame; attributed when the plain view of the same run does end in a failure entry
                         let plain_fails = last.contains_key("Failure") || last.contains_key("Throw");
-                        let sig = if plain_fails && tree_final.is_none() { Some("cldb-tree:failure-entry-missing") } else { None };
+                        // (frames that completed before the failure still show their own Final, so a Final may be present)
+                        let sig = if plain_fails { Some("cldb-tree:failure-entry-missing") } else { None };
                         out.violation(json!({"kind":"tree_view_has_no_failure_entry_though_consensus_fails","engine":"c12","sig":sig,"tree_final":tree_final,"consensus":truth.show(),"ctx":ctx}));
                     }
                 }
